@@ -220,7 +220,10 @@ def judgeAccepted (env : Env) (s : State) (c : Call) (r : Response) (s' : State)
     | .executeMatch _ b p sz =>
       (match loadBid s b, Dec.parse p with
        | some bb, some pp =>
-         exactMul pp sz && (match Dec.parse bb.price with | some bp => exactMul bp sz | none => false)
+         exactMul pp sz && (match Dec.parse bb.price with | some bp => exactMul bp sz | none => false) &&
+         (match s.info.askFee with
+          | some fi => (match Dec.parse fi.rate with | some r => exactMul r (product pp sz) | none => true)
+          | none => true)
        | _, _ => false)
     | .createBid _ _ _ price _ qs size =>
       (match Dec.parse price, bidRate s.info with
@@ -233,7 +236,10 @@ def judgeAccepted (env : Env) (s : State) (c : Call) (r : Response) (s' : State)
   let v := v.check "C16" "C16_closedInvisible"
     ((s'.asks.all fun kv => decide (kv.2.size > 0)) &&
      (s'.bids.all fun kv => match kv.2 with | .v3 b => decide (b.remBase > 0) | .v2 _ => true))
-  let v := v.check "C17" "C17_attrsOK" (C17_attrsOK s c r s')
+  -- for a match the reported fees are compared with exact arithmetic: only under the magnitude
+  -- hypothesis of `C17_truthful` (that they were really paid is checked unconditionally below)
+  let isMatch := match c.msg with | .executeMatch _ _ _ _ => true | _ => false
+  let v := if isMatch && !exactStep then v else v.check "C17" "C17_attrsOK" (C17_attrsOK s c r s')
   -- (judged from configurations whose stored rates parse, as every configuration written by the
   -- contract does: the theorem's hypothesis `infoSane`)
   let v := if infoSane s.info then v.check "C12" "C12_modifyOK" (C12_modifyOK s c.msg s') else v
@@ -246,9 +252,14 @@ def judgeAccepted (env : Env) (s : State) (c : Call) (r : Response) (s' : State)
   match c.msg with
   | .executeMatch a b p sz =>
     let v := v.check "C03" "C03_conds" (C03_conds s c.sender a b p sz)
+    -- the magnitude hypothesis of the theorems (`ExactMatch`): price × size at the execution and at
+    -- the bid price, and ask rate × gross, are all computed without rounding inside `checked_mul`
     let exact := match loadBid s b, Dec.parse p with
       | some bb, some pp =>
-        exactMul pp sz && (match Dec.parse bb.price with | some bp => exactMul bp sz | none => false)
+        exactMul pp sz && (match Dec.parse bb.price with | some bp => exactMul bp sz | none => false) &&
+        (match s.info.askFee with
+         | some fi => (match Dec.parse fi.rate with | some r => exactMul r (product pp sz) | none => true)
+         | none => true)
       | _, _ => false
     let v := if exact then v.check "C03" "C03_whole" (C03_whole s b p sz)
              else v.check "C03" "C03_whole_inexact" (C03_whole s b p sz)
